@@ -49,6 +49,10 @@ def run(rep, tier, seed, budget):
     RINGS = [["c1", KA, KA, ["", "c", "cc", "ccc", "cccc"], "1", ["", "C", ".C"]],
              [["C", ""], "c1", KA, "c2", KA, ["c", "cc", ""], KA, "c2", ["", "c"], "1"],
              ["c1", ["c", "n"], ["c", ""], "c2", ["c", "cc"], ["2", "c2"], ["c1", "1", "cc1"]]]
+    RC = ["1", "%10", ":1", "=1"]
+    RINGS += [[["c", "C", "n", "Cc"], "(", ["c", "C", "c:"], RC, ")", RC, ["", "C", "c"]],          # ring opened in a branch, closed on the parent
+              [["c1", "C1", "c12", "C12"], ["c", "C", "cc"], ["1", "12", "21", "c1", "C12"], ["", "c", "1"]],   # doubled / repeated closures
+              [["C", "c"], ["1", "%10"], ["(C)", "(c)", ""], ["1", "%10", "11"], ["C", "c", ""], ["1", "", "%10"]]]
     plan += [("ring", i) for i in range(len(RINGS))]
     for kind, n in plan:
         left = t_end - time.time()
